@@ -7,6 +7,7 @@ dictionary) + an independent oracle that reassembles the image from the datagram
 configuration area itself from the struct file text."""
 import json
 import os
+import re
 import struct
 
 import lib
@@ -23,6 +24,92 @@ KINDS = {"C": ("B", 1, False), "c": ("b", 1, True), "v": ("H", 2, False), "V": (
 HEADER = ("From Coq Require Import ZArith List String. Import ListNotations. Open Scope Z_scope.\n"
           "Require Import Rig.Generated.GenBoot Rig.Generated.GenBootImage Rig.Generated.GenBootCtrl Rig.Model.Base "
           "Rig.Model.Boot Rig.Model.BootCtrl.\n")
+
+
+# The documented layout of the bundled `sv` struct (SC&MP's system variables), frozen here: name, kind (C byte,
+# v half word, V word), offset, format, default.  The oracle judges boots that use the bundled struct file against
+# THIS description, not against whatever rig/boot/sark.struct says at the time of the run.
+PINNED_SV = (
+    "name = sv\n"
+    "size = 256\n"
+    "base = 0xf5007f00\n"
+    "p2p_addr v 0x00 %04x 0\n"
+    "p2p_dims v 0x02 %04x 0\n"
+    "dbg_addr v 0x04 %04x 0\n"
+    "p2p_up C 0x06 %d 0\n"
+    "last_id C 0x07 %d 0\n"
+    "eth_addr v 0x08 %04x 0\n"
+    "hw_ver C 0x0a %d 0\n"
+    "eth_up C 0x0b %d 0\n"
+    "p2pb_repeats C 0x0c %d 4\n"
+    "p2p_sql C 0x0d %d 4\n"
+    "clk_div C 0x0e %02x 0x33\n"
+    "tp_scale C 0x0f %d 0\n"
+    "clock_ms V 0x10 %d 0\n"
+    "clock_ms_h V 0x14 %d 0\n"
+    "time_ms v 0x18 %d 0\n"
+    "ltpc_period v 0x1a %d 0\n"
+    "unix_time V 0x1c %08x 0\n"
+    "tp_timer V 0x20 %d 0\n"
+    "cpu_clk v 0x24 %d 200\n"
+    "mem_clk v 0x26 %d 130\n"
+    "forward C 0x28 %02x 0x3f\n"
+    "retry C 0x29 %02x 0\n"
+    "peek_time C 0x2a %d 100\n"
+    "led_period C 0x2b %d 1\n"
+    "netinit_bc_wait C 0x2c %d 50\n"
+    "netinit_phase C 0x2d %d 0\n"
+    "p2p_root v 0x2e %02x 0\n"
+    "led0 V 0x30 %08x 0x00000001\n"
+    "led1 V 0x34 %08x 0x00000000\n"
+    "__PAD2 V 0x38 %d 0\n"
+    "random V 0x3c %08x 0\n"
+    "root_chip C 0x40 %d 0\n"
+    "num_buf C 0x41 %d 7\n"
+    "boot_delay C 0x42 %d 10\n"
+    "soft_wdog C 0x43 %d 3\n"
+    "__PAD3 V 0x44 %d 0\n"
+    "sysram_heap V 0x48 %08x 1024\n"
+    "sdram_heap V 0x4c %08x 1048576\n"
+    "iobuf_size V 0x50 %d 16384\n"
+    "sys_bufs V 0x54 %d 8388608\n"
+    "sysbuf_size V 0x58 %d 32768\n"
+    "boot_sig V 0x5c %08x 0\n"
+    "mem_ptr V 0x60 %08x 0\n"
+    "lock C 0x64 %02x 0\n"
+    "link_en C 0x65 %02x 0x3f\n"
+    "last_biff_id C 0x66 %02x 0\n"
+    "bt_flags C 0x67 %02x 0\n"
+    "shm_root.free V 0x68 %08x 0\n"
+    "shm_root.count v 0x6c %d 0\n"
+    "shm_root.max v 0x6e %d 0\n"
+    "utmp0 V 0x70 %08x 0\n"
+    "utmp1 V 0x74 %08x 0\n"
+    "utmp2 V 0x78 %08x 0\n"
+    "utmp3 V 0x7c %08x 0\n"
+    "status_map[20] C 0x80 %02x 0\n"
+    "p2v_map[20] C 0x94 %02x 0\n"
+    "v2p_map[20] C 0xa8 %02x 0\n"
+    "num_cpus C 0xbc %d 0\n"
+    "rom_cpus C 0xbd %d 0\n"
+    "__PAD4 v 0xbe %d 0\n"
+    "sdram_base V 0xc0 %08x 0\n"
+    "sysram_base V 0xc4 %08x 0\n"
+    "sdram_sys V 0xc8 %08x 0\n"
+    "vcpu_base V 0xcc %08x 0\n"
+    "sys_heap V 0xd0 %08x 0\n"
+    "rtr_copy V 0xd4 %08x 0\n"
+    "hop_table V 0xd8 %08x 0\n"
+    "alloc_tag V 0xdc %08x 0\n"
+    "rtr_free v 0xe0 %d 0\n"
+    "p2p_active v 0xe2 %d 0\n"
+    "app_data V 0xe4 %08x 0\n"
+    "shm_buf V 0xe8 %08x 0\n"
+    "mbox_flags V 0xec %08x 0\n"
+    "ip_addr V 0xf0 %08x 0\n"
+    "fr_copy V 0xf4 %08x 0\n"
+    "board_info V 0xf8 %08x 0\n"
+    "__PAD4 V 0xfc %08x 0\n")
 
 
 # ------------------------------------------------------------------ independent reading of struct files
@@ -43,10 +130,12 @@ def parse_struct_text(text):
             else:
                 cur[toks[0]] = num(toks[2])
         elif len(toks) == 5:
+            # NAME[n] declares an array when NAME is a plain identifier; any other first token (a dotted member
+            # path, with or without a bracket suffix) is the variable's name as written
             name, length = toks[0], 1
-            if name.endswith("]") and "[" in name:
-                name, n = name[:-1].split("[")
-                length = int(n)
+            m = re.fullmatch(r"(\w+)\[(\d+)\]", name)
+            if m:
+                name, length = m.group(1), int(m.group(2))
             cur["fields"][name] = (toks[1], num(toks[2]), num(toks[4]), length)
         else:
             raise ValueError("bad line: " + line)
@@ -124,14 +213,14 @@ def digest(b):
 
 # ------------------------------------------------------------------ generator
 def bundled_struct_text():
-    with open(os.path.join(lib.REPO, "rig", "boot", "sark.struct")) as f:
-        return f.read()
+    """The layout boots with the bundled struct file are judged against: the pinned documented one."""
+    return PINNED_SV
 
 
 def gen_struct(rng):
     """A synthetic struct file.  -> (text, variety)"""
     variety = rng.choice(["plain", "plain", "plain", "overlap", "beyond", "dup", "array", "A16", "numbered",
-                          "small", "missing-fixed", "two-structs"])
+                          "small", "missing-fixed", "two-structs", "dotted-arrays", "dotted-arrays"])
     size = rng.choice([128, 132, 160, 256])
     if variety == "small":
         size = rng.choice([64, 100, 124])
@@ -168,6 +257,14 @@ def gen_struct(rng):
         fields.append([fields[0][0], "V", (size - 4) // 4 * 4, 77])
     if variety == "array":
         fields.append(["arr[4]", "C", min(off, size - 1), 9])
+    if variety == "dotted-arrays":
+        # members of nested structs, arrays among them, sharing their last component
+        free = [o for o in range(0, min(size, 128) - 4, 4) if all(not (f[2] < o + 4 and o < f[2] + KINDS[f[1]][1])
+                                                                   for f in fields)]
+        rng.shuffle(free)
+        for nm, k, d in (("rx.buf[2]", "C", 7), ("tx.buf[2]", "C", 9), ("rx.len", "v", 300), ("tx.len", "v", 400),
+                         ("q.a.buf[3]", "V", 0x01020304))[:len(free)]:
+            fields.append([nm, k, free.pop(), d])
     if variety == "A16":
         fields.append(["label[16]", "A16", 0, 0])
     if variety == "numbered":
@@ -391,7 +488,7 @@ def oracle_call(h, i, out, presets):
     if misfit:
         # A value that its field cannot hold cannot be carried by the configuration area: the boot may refuse
         # (the code raises before anything is sent); it must not return normally having sent an image.
-        if o["result"][0] == "error" or (o["result"][0] == "cli" and not o["datagrams"]):
+        if o["result"][0] == "error" or (o["result"][0] in ("cli", "sent") and not o["datagrams"]):
             return None
         n = misfit[0]
         w = KINDS[sv["fields"][n][0]][1]
@@ -409,7 +506,7 @@ def oracle_call(h, i, out, presets):
                 "the configuration area%s cannot hold this call's value, the returned structs report %r"
                 % (len(o["datagrams"]), n, values[n], w,
                    "" if sent is None else " holds %d there and" % sent, rep[0] if rep else None))
-    if o["result"][0] not in ("ok", "cli"):
+    if o["result"][0] not in ("ok", "cli", "sent"):
         return ("boot-raised-on-valid-input", "boot raised %s (%s) on a valid image and valid options"
                 % (o["result"][1], o["result"][2]))
     # the datagram sequence
@@ -466,13 +563,13 @@ def oracle_call(h, i, out, presets):
                     % ", ".join(diff))
         return ("config-area-wrong", "configuration area byte %d (image byte %d) is %d, expected %d"
                 % (k, 384 + k, got[384 + k], config[k]))
-    if o["result"][0] == "cli":       # the command-line tool returns no struct definitions
-        return None
+    if o["result"][0] in ("cli", "sent"):     # nothing is returned: the command-line tool; a controller whose
+        return None                            # post-boot check raised after the image was sent (structs: see run)
     # the returned struct definitions
     ret = o["result"][1]
     meta = [[n, python_pack(f[0]), f[1], f[3]] for n, f in sv["fields"].items()]
     if [[r[0], r[1], r[2], r[4]] for r in ret["fields"]] != meta or ret["size"] != sv["size"]:
-        return ("structs-returned-differ", "returned sv layout differs from the struct file")
+        return ("structs-returned-differ", "returned sv layout (names, kinds, offsets, lengths) differs from the documented layout / the struct file given")
     for r in ret["fields"]:
         if r[3] != values[r[0]]:
             return ("structs-returned-differ", "returned default of %s is %r, the value sent is %r"
@@ -597,7 +694,7 @@ def canon_impl(h, out):
         for d in o["datagrams"]:
             b = bytes.fromhex(d)
             dgs.append([len(b), digest(b)])
-        if o["result"][0] == "cli":
+        if o["result"][0] in ("cli", "sent"):
             res = ["cli"]
         elif o["result"][0] == "ok":
             res = ["ok", [f[3] for f in o["result"][1]["fields"]]]
@@ -781,6 +878,48 @@ def run(chk, args):
                 c1["tags"] = ["family", "path:struct-rewritten-in-place"]
                 calls.append(c1)
             histories.append(dict(slots=[], calls=calls))
+        # ... every system variable of the configuration area (first 128 bytes of sv, the LED words and the spare
+        # ones included) given a value with no zero byte, one per boot and all in one boot, judged byte for byte
+        # against the pinned documented layout
+        pinned = parse_struct_text(PINNED_SV)["sv"]
+        pat = {1: 0xA5, 2: 0xA55A, 4: 0xA55AA55B}
+        area = [(nm, KINDS[f[0]][1]) for nm, f in pinned["fields"].items() if f[0] in KINDS and f[1] < 128]
+        for nm, w in area:
+            c1 = simple(7, 1024, 13, 1474848000, overrides=dict(fresh=[[nm, pat[w]]]))
+            c1["tags"] = ["family", "options:every-config-area-field"]
+            histories.append(dict(slots=[], calls=[c1]))
+        for via in ("func", "mc"):
+            c1 = simple(7, 1024, 13, 1474848000, via=via, overrides=dict(fresh=[[nm, pat[w] - k % 3] for k, (nm, w) in enumerate(area)]))
+            c1["tags"] = ["family", "options:every-config-area-field"]
+            histories.append(dict(slots=[], calls=[c1, simple(8, 1024, 13, 1474848001, via=via)]))
+        # ... custom struct files (sark_struct=) in the documented format: dotted member names, arrays of nested
+        # members sharing their last component, comments, blank lines, hex and decimal numbers
+        dotted = ("# custom system variables\n\nname = sv   # struct\nsize = 0x80\nbase = 0xf5007f00\n\n"
+                  "hw_ver        C  0x00  %d    0    # plain\n"
+                  "rx.buf[2]     C  0x10  %02x  7    # array member of rx\n"
+                  "tx.buf[2]     C  0x14  %02x  9    # array member of tx\n\n"
+                  "rx.len        v  24    %d    300\n"
+                  "tx.len        v  26    %d    0x190\n"
+                  "q.a.buf[3]    V  0x20  %08x  0x01020304\n"
+                  "buf           C  0x30  %d    5    # a plain field called like the members\n"
+                  "unix_time     V  0x40  %08x  0\nboot_sig      V  0x44  %08x  0\nroot_chip     C  0x48  %d  0\n"
+                  "\nname = other\nsize = 4\nbase = 0\nx.buf[2]  C  0  %d  1\n")
+        for via in ("func", "mc"):
+            for opt in ({}, dict(overrides=dict(fresh=[["rx.buf[2]", 0x11]])), dict(overrides=dict(fresh=[["tx.buf[2]", 0x22], ["buf", 0x33]])),
+                        dict(kwargs=[["hw_ver", 4]], overrides=dict(fresh=[["q.a.buf[3]", 0x0A0B0C0D], ["rx.len", 0x1234]]))):
+                c1 = simple(9, 1024, 17, 1474848000, via=via, struct=dict(kind="text", text=dotted), **opt)
+                c1["tags"] = ["family", "struct:dotted-arrays"]
+                histories.append(dict(slots=[], calls=[c1]))
+        # ... boots through a controller whose post-boot check gets no SCP reply (SpiNNakerBootError after the
+        # image was sent): the controller's structs must describe the image that was sent
+        for given in (False, True):
+            calls = [simple(10, 1024, 19, 1474848000, via="mc", ctrl=0, structs_given=given, preset_kwargs=3, check_booted=True),
+                     simple(11, 1024, 19, 1474848010, via="mc", ctrl=1, kwargs=[["cpu_clk", 150]]),
+                     simple(10, 1024, 21, 1474848020, via="mc", ctrl=0, structs_given=given, check_booted=True,
+                            overrides=dict(fresh=[["led1", 0x0F0F], ["boot_delay", 20]]))]
+            for c1 in calls:
+                c1["tags"] = ["family", "controller:post-boot-check-fails" if c1.get("check_booted") else "controller:sequence"]
+            histories.append(dict(slots=[], calls=calls))
         # ... and, in the thorough tier, every image size 0, 4, ..., 4200 and every single-field override of
         # the bundled struct at its extreme values
         if chk.tier != "quick":
@@ -893,9 +1032,9 @@ def run(chk, args):
                 oc = o["calls"][i]
                 if c["via"] == "mc":
                     key = "c%s" % c["ctrl"]
-                    if oc["result"][0] == "ok" and c.get("_in_domain"):
-                        last[key] = (i, c["_values"])
-                    elif oc["result"][0] == "ok":
+                    if oc["result"][0] in ("ok", "sent") and c.get("_in_domain"):
+                        last[key] = (i, c["_values"])      # "sent": the post-boot check raised after the image went out
+                    elif oc["result"][0] in ("ok", "sent"):
                         last.pop(key, None)
                 bad = None
                 for key, (j, vals) in last.items():
@@ -945,7 +1084,8 @@ def run(chk, args):
                 chk.traces_validated += len(h["calls"])
                 m, im = canon_model(v, h), canon_impl(h, o)
                 for k_, c_ in enumerate(h["calls"]):     # the command-line tool returns nothing to compare
-                    if c_["via"] == "cli" and k_ < len(m["calls"]) and m["calls"][k_]["result"][0] == "ok":
+                    if (c_["via"] == "cli" or c_.get("check_booted")) and im["calls"][k_]["result"] == ["cli"] \
+                            and k_ < len(m["calls"]) and m["calls"][k_]["result"][0] == "ok":
                         m["calls"][k_]["result"] = ["cli"]
                 if m != im:
                     bad = (h, o, first_difference(m, im))
